@@ -62,11 +62,12 @@ def gen_c12(rng, big=False):
         sv["npool"] = "shared"
     if rng.random() < 0.15:
         sv["custom_dispatch"] = True
-    life = rng.choices(["serve", "never-served", "shutdown-inflight", "handle-loop", "serve-twice"], [62, 8, 14, 8, 8])[0]
+    life = rng.choices(["serve", "never-served", "shutdown-inflight", "handle-loop", "serve-twice", "close-while-serving"],
+                       [56, 8, 12, 8, 8, 8 if kind != "plain" else 0])[0]
     methods = {"echo": {"kind": "echo"}, "fail": {"kind": "fail"},
                "slow": {"kind": "slow", "d": rng.choice([0.5, 1.0, 2.0])},
                "ns.echo": {"kind": "echo"}, "quit": {"kind": "exit"}, "err": {"kind": "sharedfault"}}
-    if life == "shutdown-inflight":
+    if life in ("shutdown-inflight", "close-while-serving"):
         methods["gate"] = {"kind": "gate", "gate": "g"}
     names = sorted(methods) + ["nope"]
     nclients = rng.randint(1, 5 if big else 4) if life != "never-served" else 0
@@ -79,7 +80,7 @@ def gen_c12(rng, big=False):
             k = rng.random()
             if k < 0.45:
                 m = rng.choice(names)
-                if life == "shutdown-inflight" and rng.random() < 0.5:
+                if life in ("shutdown-inflight", "close-while-serving") and rng.random() < 0.5:
                     m = rng.choice(["gate", "slow"])
                 if rng.random() < 0.2:
                     ops.append(["call", m, {"token": tok, "x": oi}] if m in ("echo", "ns.echo") else ["call", m, [tok]])
@@ -111,11 +112,13 @@ def gen_c12(rng, big=False):
     if life == "handle-loop":
         prog["handle_count"] = nreq
         # a sequential handle_request loop cannot serve a slow request and others at once: fine, they queue
-    if life == "shutdown-inflight":
-        prog["shutdown_at"] = rng.choice([0.25, 0.5, 1.0, 2.0])
+    if life in ("shutdown-inflight", "close-while-serving"):
+        prog["shutdown_at"] = rng.choice([0.0, 0.25, 0.5, 1.0, 2.0])
         prog["open_after"] = rng.choice([0.5, 2.0, 4.0])
     if rng.random() < 0.1:
         prog["double_close"] = True
+    if rng.random() < 0.04:
+        prog["cold"] = True
     if life == "serve" and rng.random() < 0.15:
         prog["second_server"] = True
     elif life in ("serve", "handle-loop") and rng.random() < 0.12:
@@ -358,7 +361,7 @@ class C12Scenario(object):
             mx = max(mx, cur)
         if mx >= 2:
             p["two_methods_executing_at_once"] = 1
-        if life == "shutdown-inflight" and any(e[2] == "call.begin" for e in s.log[:_find(s.log, "inflight.shutdown")]):
+        if life in ("shutdown-inflight", "close-while-serving") and any(e[2] == "call.begin" for e in s.log[:_find(s.log, "inflight.shutdown")]):
             p["shutdown_with_request_in_flight"] = 1
         if any(o["kind"] == "raw" for o in h.ops.values()):
             p["invalid_body_sent"] = 1
